@@ -325,7 +325,7 @@ impl RBig {
             let target = fract
                 + Self(Repr {
                     numerator: IBig::ONE,
-                    denominator: limit.sqr(),
+                    denominator: limit.sqr() + UBig::ONE,
                 });
             Self::farey_neighbors(&target, limit).1
         } else {
@@ -358,7 +358,7 @@ impl RBig {
             let target = fract
                 - Self(Repr {
                     numerator: IBig::ONE,
-                    denominator: limit.sqr(),
+                    denominator: limit.sqr() + UBig::ONE,
                 });
             Self::farey_neighbors(&target, limit).0
         } else {
